@@ -392,9 +392,39 @@ def table():
                                              ', '.join(caught) or '**missed**', first.replace('|', '/')[:160]))
 
 
+def neutral_table():
+    print('# Behaviour-preserving changes (false-alarm bench)')
+    print()
+    print('Each directory holds one refactoring of the code a property is anchored in, written by an independent sub-agent that saw only the')
+    print('property text (`patch.diff`), its argument and differential demonstration that behaviour is unchanged (`NOTES.md`), the confirmation')
+    print('that it applies, compiles and keeps the 34 pinned tests green (`meta.json`, `tools/seed.py neutral-confirm`) and the outcome of all 19')
+    print('quick checks on it (`result.json`, `tools/seed.py neutral-all`). `<P>-n<k>` is the first round (local respellings), `<P>-b<k>` the')
+    print('second (structural refactorings). A check that alarms on any of them raises a false alarm. DESIGN.md section 10.6 tells the story.')
+    print()
+    print('| change | area | what was rewritten | checks that alarm (quick tier) |')
+    print('|---|---|---|---|')
+    quiet = n = 0
+    for nid in sorted(os.path.basename(os.path.dirname(p)) for p in glob.glob(os.path.join(NEUTRAL, '*', 'meta.json'))):
+        d = os.path.join(NEUTRAL, nid)
+        meta = json.load(open(os.path.join(d, 'meta.json')))
+        res = json.load(open(os.path.join(d, 'result.json'))) if os.path.exists(os.path.join(d, 'result.json')) else None
+        what = meta.get('summary') or ''
+        if not what and os.path.exists(os.path.join(d, 'NOTES.md')):
+            first = open(os.path.join(d, 'NOTES.md')).readline().strip().lstrip('# ').strip()
+            what = first.split(' - ', 1)[-1]
+        n += 1
+        if res is not None and not res.get('alarms'):
+            quiet += 1
+        print('| %s | %s | %s | %s |' % (nid, meta.get('area', ''), what.replace('|', '/')[:150],
+                                        'not run' if res is None else (', '.join(sorted(res['alarms'])) or 'none')))
+    print()
+    print('%d changes, %d quiet under all 19 quick checks.' % (n, quiet))
+
+
 def main():
     ap = argparse.ArgumentParser()
     sub = ap.add_subparsers(dest='cmd')
+    sub.add_parser('neutral-table')
     c = sub.add_parser('confirm')
     c.add_argument('src')
     c.add_argument('id')
@@ -431,6 +461,9 @@ def main():
         return detect_all(a.lanes, a.ids)
     if a.cmd == 'table':
         table()
+        return 0
+    if a.cmd == 'neutral-table':
+        neutral_table()
         return 0
     ap.print_usage()
     return 2
